@@ -92,6 +92,9 @@ func (p Principals) ToSlice() []string {
 
 // Validates Principals by checking user account access keys existence
 func (p Principals) Validate(iam IAMService) error {
+	if len(p) == 0 {
+		return policyErrInvalidPrincipal
+	}
 	_, containsWildCard := p["*"]
 	if containsWildCard {
 		if len(p) == 1 {
